@@ -1014,7 +1014,7 @@ pub fn run<B: Flav>(rec: &mut Rec, rng: &mut Rng, n_ops: usize, with_streams: bo
                         // derivations
                         let off = small(rng);
                         let cnt = if rng.chance(3, 4) { rng.below((plen as u64).saturating_sub(off.min(plen as u64)) + 2) } else { rng.boundary(&marks) };
-                        nt = off + cnt >= plen as u64 || off > plen as u64;
+                        nt = off.saturating_add(cnt) >= plen as u64 || off > plen as u64;
                         next_id += 2;
                         match rng.below(9) {
                             0 | 1 => format!("s.sub d={} s={} off={} cnt={}", d, sid, off, cnt),
@@ -1043,7 +1043,7 @@ pub fn run<B: Flav>(rec: &mut Rec, rng: &mut Rng, n_ops: usize, with_streams: bo
                         // buffer / object writes & reads
                         let addr = small(rng);
                         let len = match rng.below(6) { 0 => 0, 1 => rng.below(9), 2 => 8 + rng.below(3), _ => rng.below(plen as u64 + 6) } as usize;
-                        nt = addr as usize + len >= plen || len <= 9;
+                        nt = (addr as usize).saturating_add(len) >= plen || len <= 9;
                         let data = rng.bytes(len);
                         match rng.below(7) {
                             0 | 1 => format!("s.write s={} addr={} data={}", sid, addr, hex(&data)),
@@ -1058,7 +1058,7 @@ pub fn run<B: Flav>(rec: &mut Rec, rng: &mut Rng, n_ops: usize, with_streams: bo
                         // mostly aligned addresses
                         let mut addr = small(rng);
                         if rng.chance(3, 4) {
-                            let abs = base_addr + w.ext(sid).unwrap().0 as u64 + addr;
+                            let abs = base_addr.wrapping_add(w.ext(sid).unwrap().0 as u64).wrapping_add(addr);
                             addr = addr.wrapping_sub(abs % a.1 as u64);
                             if addr > u64::MAX / 2 { addr = 0; }
                         }
